@@ -2,9 +2,9 @@
 .PHONY: setup coq drivers clean
 setup: coq drivers
 coq:
-	./tools/coqmake.sh
+	./tools/coqmake.sh -k || echo "WARNING: some Coq files failed to build (checks build their own targets)"
 drivers:
-	python3 -c "import vlib,sys; [vlib.build_driver(n) for n in sys.argv[1:]]" $(shell ls coq/extract | sed 's/\.v$$//')
+	for n in $$(ls coq/extract | sed 's/\.v$$//'); do python3 -c "import vlib,sys; vlib.build_driver(sys.argv[1])" $$n || echo "WARNING: driver $$n failed to build"; done
 clean:
 	rm -rf build coq/Makefile.coq* coq/.Makefile.coq.d coq/_CoqProject
 	find coq -name '*.vo' -o -name '*.vok' -o -name '*.vos' -o -name '*.glob' -o -name '.*.aux' | xargs rm -f
